@@ -4,8 +4,7 @@ The post is the property statement: the result is obtained from F by ONE choice 
 ONE bijection of the variables sigma and ONE permutation of the clause positions, applied to every occurrence.
 The witnesses are the function's own values at exit (final('polarity_flips'), final('variables_permutation'),
 final('clauses_mapping'), final('substitution')); imapsub(c, T, n) is "look every literal of c up in the table T".
-Arguments are polymorphic ('fixed' | 'shuffle' | explicit list): three variants, all three arguments in the same mode;
-mixed modes are decided by the bounded tier.  RNG calls are demonic (any outcome allowed by their contract).
+Arguments are polymorphic ('fixed' | 'shuffle' | explicit list): every argument independently: 27 variants (quick tier: 6 of them, thorough tier: all).  RNG calls are demonic (any outcome allowed by their contract).
 """
 S = 'cnfgen/transformations/shuffle.py'
 
@@ -53,6 +52,42 @@ EXPLICIT_BAD = ('len(polarity_flips) != F._numvar or not forall(lambda j: implie
                 'or len(variables_permutation) != F._numvar or not isperm(variables_permutation, F._numvar, 1) '
                 'or len(clauses_permutation) != clen(F._clauses) or not isperm(clauses_permutation, clen(F._clauses), 0)')
 
+# every argument independently: an explicit list, 'fixed' (switched off) or 'shuffle' (random): 27 combinations.
+# per argument: (parameter type, raises-disjunct for an explicit value, extra postconditions)
+_MODES = {
+    'polarity_flips': {
+        'explicit': ('intlist', 'len(polarity_flips) != F._numvar or not forall(lambda j: implies(0 <= j and j < F._numvar, polarity_flips[j] == 1 or polarity_flips[j] == -1))', []),
+        'fixed': ('const:"fixed"', None, ['forall(lambda j: implies(0 <= j and j < F._numvar, final("polarity_flips")[j] == 1))']),
+        'shuffle': ('const:"shuffle"', None, []),
+    },
+    'variables_permutation': {
+        'explicit': ('intlist', 'len(variables_permutation) != F._numvar or not isperm(variables_permutation, F._numvar, 1)',
+                     ['isperm(final("variables_permutation"), F._numvar, 1)']),
+        'fixed': ('const:"fixed"', None, ['forall(lambda j: implies(0 <= j and j < F._numvar, final("variables_permutation")[j] == j + 1))']),
+        'shuffle': ('const:"shuffle"', None, ['isperm(final("variables_permutation"), F._numvar, 1)']),
+    },
+    'clauses_permutation': {
+        'explicit': ('intlist', 'len(clauses_permutation) != clen(F._clauses) or not isperm(clauses_permutation, clen(F._clauses), 0)',
+                     ['forall(lambda j: implies(0 <= j and j < clen(F._clauses), clauses_permutation[final("clauses_mapping")[j][0]] == j))']),
+        'fixed': ('const:"fixed"', None, ['forall(lambda j: implies(0 <= j and j < clen(F._clauses), final("clauses_mapping")[j][0] == j))']),
+        'shuffle': ('const:"shuffle"', None, ['isperm(firsts(final("clauses_mapping")), clen(F._clauses), 0)']),
+    },
+}
+VARIANTS = {}
+for _p in ('explicit', 'fixed', 'shuffle'):
+    for _v in ('explicit', 'fixed', 'shuffle'):
+        for _c in ('explicit', 'fixed', 'shuffle'):
+            _sel = {'polarity_flips': _p, 'variables_permutation': _v, 'clauses_permutation': _c}
+            _bad = [_MODES[a][m][1] for a, m in _sel.items() if _MODES[a][m][1]]
+            VARIANTS['{}-{}-{}'.format(_p[0], _v[0], _c[0])] = {
+                'params': dict({'F': 'obj:CNF'}, **{a: _MODES[a][m][0] for a, m in _sel.items()}),
+                # invalid explicit arguments are rejected, valid ones are applied exactly as given
+                'raises': {'ValueError': ' or '.join(_bad)} if _bad else {},
+                'ensures': [t for a, m in _sel.items() for t in _MODES[a][m][2]],
+            }
+# the quick tier proves the three uniform combinations and three mixed ones; the thorough tier all 27
+QUICK_VARIANTS = ['e-e-e', 'f-f-f', 's-s-s', 'e-s-f', 's-f-e', 'f-e-s']
+
 CLASSMODELS = {}
 NOT_PYVC = False
 
@@ -69,28 +104,7 @@ CONTRACTS = {
         'requires': WF_F,
         'loops': LOOPS,
         'ensures': POST,
-        'variants': {
-            'explicit': {
-                'params': {'F': 'obj:CNF', 'polarity_flips': 'intlist', 'variables_permutation': 'intlist', 'clauses_permutation': 'intlist'},
-                # invalid explicit arguments are rejected, valid ones are applied exactly as given
-                'raises': {'ValueError': EXPLICIT_BAD},
-                'ensures': ['isperm(final("variables_permutation"), F._numvar, 1)',
-                            'forall(lambda j: implies(0 <= j and j < clen(F._clauses), clauses_permutation[final("clauses_mapping")[j][0]] == j))'],
-            },
-            'fixed': {
-                'params': {'F': 'obj:CNF', 'polarity_flips': 'const:"fixed"', 'variables_permutation': 'const:"fixed"', 'clauses_permutation': 'const:"fixed"'},
-                'raises': {},
-                # switched off = identity components
-                'ensures': ['forall(lambda j: implies(0 <= j and j < F._numvar, final("polarity_flips")[j] == 1 and final("variables_permutation")[j] == j + 1))',
-                            'forall(lambda j: implies(0 <= j and j < clen(F._clauses), final("clauses_mapping")[j][0] == j))'],
-            },
-            'shuffle': {
-                'params': {'F': 'obj:CNF', 'polarity_flips': 'const:"shuffle"', 'variables_permutation': 'const:"shuffle"', 'clauses_permutation': 'const:"shuffle"'},
-                'raises': {},
-                # whatever the random generator answers, the components are a sign vector and two permutations
-                'ensures': ['isperm(final("variables_permutation"), F._numvar, 1)',
-                            'isperm(firsts(final("clauses_mapping")), clen(F._clauses), 0)'],
-            },
-        },
+        'variants': VARIANTS,
+        'quick_variants': QUICK_VARIANTS,
     },
 }
